@@ -114,6 +114,12 @@ def gen_case(rng, max_cards=40, audit_types=None, allow_style_off=True, max_roun
             ballot = {cid: W.gen_votes(rng, contests[cid], strength=strength) for cid in st}
             cards.append({"id": f"{b['tab']}-{b['batch']}-{pos}", "tab": b["tab"], "batch": b["batch"], "pos": pos,
                           "ballot": ballot})
+    # now and then the cards also carry a contest that is not under audit
+    unaudited = (not polling) and rng.chance(0.2)
+    if unaudited:
+        for c in cards:
+            if rng.chance(0.5):
+                c["ballot"]["U0"] = {"U0a": 1} if rng.chance(0.7) else {"U0b": 1}
     # ---- voting system: CVRs (F2: some cards lose their CVR), pooling of batches (F7)
     pooled_batches = set()
     if audit_type == W.ONEAUDIT and pooled:
@@ -123,12 +129,14 @@ def gen_case(rng, max_cards=40, audit_types=None, allow_style_off=True, max_roun
                 pooled_batches.add((b["tab"], b["batch"]))
     cvrs = []
     lost = []
+    mixed_pool = bool(pooled_batches) and rng.chance(0.2)  # a pooled batch some of whose cards keep their own CVR
     for c in cards:
         if not polling and rng.chance(rate["F2"]) and len(cards) - len(lost) > 1:
             lost.append(c["id"])
             continue
         cvrs.append({"id": c["id"], "votes": copy.deepcopy(c["ballot"]), "tally_pool": f"{c['tab']}-{c['batch']}",
-                     "pool": (c["tab"], c["batch"]) in pooled_batches, "card_in_batch": c["pos"]})
+                     "pool": (c["tab"], c["batch"]) in pooled_batches and not (mixed_pool and rng.chance(0.25)),
+                     "card_in_batch": c["pos"]})
     # every contest is listed by at least one record (an audit of a contest nobody voted in has no data at all)
     for cid in cids:
         tgt = cvrs if not polling else cards
@@ -192,6 +200,8 @@ def gen_case(rng, max_cards=40, audit_types=None, allow_style_off=True, max_roun
             faults.append("F1")
         else:
             for cid in list(rec["votes"]):
+                if cid not in contests:
+                    continue
                 if rng.chance(rate["F3"]):
                     rec["votes"][cid] = mutate_votes(rng, contests[cid], rec["votes"][cid])
                     faults.append("F3")
@@ -199,6 +209,8 @@ def gen_case(rng, max_cards=40, audit_types=None, allow_style_off=True, max_roun
                     rec["votes"][cid] = mutate_votes(rng, contests[cid], rec["votes"][cid], "encoding")
                     faults.append("enc")
             for cid in list(rec["votes"]):
+                if cid not in contests:
+                    continue
                 if rng.chance(rate["F4"]):
                     del rec["votes"][cid]
                     faults.append("F4")
@@ -233,10 +245,12 @@ def gen_case(rng, max_cards=40, audit_types=None, allow_style_off=True, max_roun
                        "size_from_estimate": bool(r > 0 and rng.chance(0.25)),
                        "refresh": bool(r > 0 and rng.chance(0.2)),
                        "rebuild": bool(r > 0 and variant != "continue" and rng.chance(0.15)),
+                       "continue_order": rng.pick(["same", "same", "sorted", "reversed"]),
                        "shuffle": rng.getrandbits(32)})
     rehearsal = {"seed": rng.getrandbits(48), "frac": rng.pick([0.2, 0.5, 1.0])} if (not polling and rng.chance(0.2)) else None
     return {
-        "rehearsal": rehearsal,
+        "rehearsal": rehearsal, "pools_restricted": bool(unaudited and rng.chance(0.6)),
+        "diluted_look": rng.chance(0.3), "persist_mvrs": rng.chance(0.5),
         "world": world, "cvrs": cvrs, "cards": [{k: c[k] for k in ("id", "tab", "batch", "pos")} for c in cards],
         "ballots": {c["id"]: c["ballot"] for c in cards} if polling else None,
         "batches": batches, "lost": lost, "mvr": mvr, "phantom_label": phantom_label,
